@@ -8,6 +8,16 @@ A *spec* is a JSON-able description of
   * ONE SqliteRecorder attached to a subset of {problem, driver, systems, nonlinear solvers} with recording options;
   * a run sequence (run_model / run_driver / record / set).
 
+Optional spec fields (absent in older replay files, where they mean "feature not used"):
+  * input ``'si'``: list of distinct source indices -- the input is a partial / reordered view of its source
+    (``connect(..., src_indices=si)`` or ``promotes(..., src_indices=si)``);
+  * input ``'alias'``: the input is promoted into its parent group under this name (rename).  With ``src['t'] == 'auto'`` the
+    alias names an entry of ``spec['shared']``; with ``'implicit': True`` and ``src['t'] == 'ivc'`` the alias is the promoted name
+    of an IndepVarComp output, i.e. the connection is made by promotion instead of ``connect``;
+  * ``spec['shared']``: list of ``{'name', 'at' ('root'|'G'), 'units', 'val', 'size', 'dv'}``: several unconnected inputs promoted
+    to one name whose ``_auto_ivc`` source is described by ``group.set_input_defaults(name, val=val, units=units)`` -- the units may
+    differ from the units declared on every promoted input.
+
 ``build(spec)`` creates the problem, ``run_recorded(spec, fname)`` executes the run sequence while keeping a live snapshot
 log: the ``record_iteration`` method of every requester with a recorder is wrapped at instance level and the model's
 root vectors are copied at each call, in order.  ``reference(spec, dv)`` evaluates the model in plain NumPy.
@@ -19,6 +29,41 @@ Q = 4.0          # integer-coded coefficients are divided by Q
 UNIT_PAIRS = [(None, None), (None, None), ('m', 'm'), ('m', 'cm'), ('s', 'ms'), ('kg', 'g'), ('cm', 'm')]
 UNIT_FACTOR = {('m', 'm'): 1.0, ('m', 'cm'): 100.0, ('s', 'ms'): 1000.0, ('kg', 'g'): 1000.0, ('cm', 'm'): 0.01,
                (None, None): 1.0}
+# units used by the promoted groups of unconnected inputs (set_input_defaults): value of one unit in the family's base unit
+UNIT_FAMILIES = [['m', 'cm', 'mm'], ['s', 'ms', 'min'], ['kg', 'g']]
+UNIT_BASE = {'m': 1.0, 'cm': 0.01, 'mm': 0.001, 's': 1.0, 'ms': 0.001, 'min': 60.0, 'kg': 1.0, 'g': 0.001}
+
+
+def ufactor(su, tu):
+    """x [su] = ufactor * x [tu] ... i.e. a value expressed in `su` is multiplied by this factor to express it in `tu`"""
+    if (su, tu) in UNIT_FACTOR:
+        return UNIT_FACTOR[(su, tu)]
+    if su is None or tu is None or su == tu:
+        return 1.0
+    return UNIT_BASE[su] / UNIT_BASE[tu]
+
+
+def shared_groups(spec):
+    return spec.get('shared') or []
+
+
+def shared_members(spec, sh):
+    """[(abs input name, input dict)] of the inputs promoted to the shared name"""
+    return [(a, v) for a, v in all_inputs(spec) if v.get('alias') == sh['name'] and v['src'] is not None and v['src']['t'] == 'auto']
+
+
+def shared_of_input(spec, v):
+    """the spec['shared'] entry an (unconnected) input belongs to, or None"""
+    if v.get('alias') and v['src'] is not None and v['src']['t'] == 'auto':
+        for sh in shared_groups(spec):
+            if sh['name'] == v['alias']:
+                return sh
+    return None
+
+
+def is_view(si, n):
+    """src_indices that are not the identity over a source of size n"""
+    return si is not None and list(si) != list(range(n))
 
 
 # ------------------------------------------------------------------------------------------------------------
@@ -49,6 +94,8 @@ def var_names(spec):
         for io, lst in (('input', c['ins']), ('output', c['outs'])):
             for v in lst:
                 inner = v['n'] if c['prom'] else c['name'] + '.' + v['n']
+                if io == 'input' and v.get('alias'):
+                    inner = v['alias']
                 out[path + '.' + v['n']] = {'io': io, 'prom': _prom(inner, c['grp'], spec['gprom']), 'sys': path,
                                             'size': v['size'], 'units': v['units']}
     cy = spec['cycle']
@@ -121,8 +168,13 @@ def desvar_names(spec):
         for d in spec['ivc']['outs']:
             res.append((names['ivc.' + d['n']]['prom'], 'ivc.' + d['n'], d['size']))
     for absn, v in all_inputs(spec):
-        if v.get('dv') and (v['src'] is None or v['src']['t'] == 'auto'):
+        if v.get('dv') and (v['src'] is None or v['src']['t'] == 'auto') and shared_of_input(spec, v) is None:
             res.append((names[absn]['prom'], absn, v['size']))
+    for sh in shared_groups(spec):
+        mem = shared_members(spec, sh)
+        if sh.get('dv') and mem:
+            # design variable = the promoted name (its value is the _auto_ivc source: sh['size'] entries in sh['units'])
+            res.append((names[mem[0][0]]['prom'], mem[0][0], sh['size']))
     return res
 
 
@@ -275,7 +327,17 @@ def build(spec, recorder_file=None):
             parent = G
         else:
             parent = model
-        parent.add_subsystem(c['name'], make_linquad(c), promotes=['*'] if c['prom'] else None)
+        ali = [v for v in c['ins'] if v.get('alias')]
+        if not ali:
+            parent.add_subsystem(c['name'], make_linquad(c), promotes=['*'] if c['prom'] else None)
+        else:
+            pin = [v['n'] for v in c['ins'] if not v.get('alias')] if c['prom'] else []
+            pin += [(v['n'], v['alias']) for v in ali if not v.get('si')]
+            parent.add_subsystem(c['name'], make_linquad(c), promotes_inputs=pin or None,
+                                 promotes_outputs=['*'] if c['prom'] else None)
+            for v in ali:
+                if v.get('si'):
+                    parent.promotes(c['name'], inputs=[(v['n'], v['alias'])], src_indices=list(v['si']))
     cy = spec['cycle']
     if cy:
         cyc = model.add_subsystem('cyc', om.Group(), promotes=['*'] if cy['gprom'] else None)
@@ -294,8 +356,22 @@ def build(spec, recorder_file=None):
     model.add_subsystem('obj', make_obj(spec['obj']))
     for absn, v in all_inputs(spec):
         s = src_abs(spec, v['src'])
-        if s is not None:
-            model.connect(names[s]['prom'], names[absn]['prom'])
+        if s is not None and not v.get('implicit'):
+            if v.get('si'):
+                model.connect(names[s]['prom'], names[absn]['prom'], src_indices=list(v['si']))
+            else:
+                model.connect(names[s]['prom'], names[absn]['prom'])
+    for sh in shared_groups(spec):
+        mem = shared_members(spec, sh)
+        if not mem:
+            continue
+        kw = {'val': np.array(sh['val'], dtype=float)}
+        if sh['units'] is not None:
+            kw['units'] = sh['units']
+        if sh['at'] == 'G':
+            G.set_input_defaults(sh['name'], **kw)
+        else:
+            model.set_input_defaults(names[mem[0][0]]['prom'], **kw)
 
     # design variables / responses
     for (nm, _, size) in desvar_names(spec):
@@ -484,7 +560,9 @@ def run_recorded(spec, fname, p=None, handles=None, fast=True):
 # ------------------------------------------------------------------------------------------------------------
 
 def reference(spec, given):
-    """Evaluate the model in NumPy.  `given`: abs name -> value for ivc outputs and unconnected inputs (input units).
+    """Evaluate the model in NumPy.  `given`: abs name -> value for ivc outputs and unconnected inputs (input units);
+    '@' + shared name -> value of the source of a spec['shared'] group (sh['size'] entries in sh['units']).
+    An input reads the entries `si` of its source (all of them without `si`), converted from the source's to the input's units.
     Returns dict abs name -> value for every input and output (cycle solved to 1e-15 by fixed point iteration)."""
     vals = {}
     if spec['ivc']:
@@ -494,11 +572,16 @@ def reference(spec, given):
 
     def fetch(absn, v):
         s = src_abs(spec, v['src'])
-        if s is None:
+        sh = shared_of_input(spec, v)
+        if s is None and sh is not None and '@' + sh['name'] in given:
+            src = np.asarray(given['@' + sh['name']], dtype=float).ravel()
+            vals['@' + sh['name']] = src
+            x = (src[list(v['si'])] if v.get('si') else src) * ufactor(sh['units'], v['units'])
+        elif s is None:
             x = np.asarray(given[absn], dtype=float).ravel()
         else:
-            f = UNIT_FACTOR[(names[s]['units'], v['units'])]
-            x = vals[s] * f
+            f = ufactor(names[s]['units'], v['units'])
+            x = (vals[s][list(v['si'])] if v.get('si') else vals[s]) * f
         vals[absn] = x
         return x
 
@@ -528,6 +611,55 @@ def reference(spec, given):
     return vals
 
 
+def given_from_snapshot(spec, conn, rinfo, e):
+    """the `given` argument of reference() taken from the snapshot `e` of a recorded run: IndepVarComp outputs, the _auto_ivc
+    source of every spec['shared'] group and the value of every other unconnected input"""
+    given = {}
+    if spec['ivc']:
+        for d in spec['ivc']['outs']:
+            given['ivc.' + d['n']] = rinfo['out_off'].get(e['outputs'], 'ivc.' + d['n'])
+    for i, v in all_inputs(spec):
+        o = conn.get(i, '')
+        if not o.startswith('_auto_ivc.'):
+            continue
+        sh = shared_of_input(spec, v)
+        if sh is not None:
+            given['@' + sh['name']] = rinfo['out_off'].get(e['outputs'], o)
+        else:
+            given[i] = rinfo['in_off'].get(e['inputs'], i)
+    return given
+
+
+def feature_classes(spec):
+    """class labels of the promoted-group / src_indices features a spec uses"""
+    cls = []
+    for sh in shared_groups(spec):
+        mem = shared_members(spec, sh)
+        if not mem:
+            continue
+        cls.append('gen:shared-auto-input')
+        if len(mem) >= 2:
+            cls.append('gen:shared-auto-input:2+members')
+        if any(ufactor(sh['units'], v['units']) != 1.0 for _, v in mem):
+            cls.append('gen:defaults-units-differ-from-inputs')
+        if len({v['units'] for _, v in mem}) >= 2 and all(v['units'] != sh['units'] for _, v in mem):
+            cls.append('gen:defaults-units-differ-from-inputs:three-units')
+        if any(is_view(v.get('si'), sh['size']) for _, v in mem):
+            cls.append('gen:src-indices:promoted-auto')
+    names = var_names(spec)
+    for a, v in all_inputs(spec):
+        s = src_abs(spec, v['src'])
+        if s is not None and is_view(v.get('si'), names[s]['size']):
+            cls.append('gen:src-indices:promoted-ivc' if v.get('implicit') else 'gen:src-indices:connect')
+            if ufactor(names[s]['units'], v['units']) != 1.0:
+                cls.append('gen:src-indices:with-unit-conversion')
+        elif s is not None and v.get('implicit'):
+            cls.append('gen:implicit-ivc-promotion')
+    if any(c.startswith('gen:src-indices') for c in cls):
+        cls.append('gen:src-indices')
+    return list(dict.fromkeys(cls))
+
+
 # ------------------------------------------------------------------------------------------------------------
 # Hypothesis strategy
 # ------------------------------------------------------------------------------------------------------------
@@ -551,7 +683,7 @@ def spec_strategy(max_recorders=4, drivers=('plain', 'doe', 'slsqp'), want_input
         if draw(st.integers(0, 3)) > 0:
             outs = []
             for i in range(draw(st.integers(1, 2))):
-                n = draw(sizes)
+                n = draw(st.sampled_from([1, 2, 3, 3]))
                 outs.append({'n': f"x{i}", 'size': n, 'val': vals(n), 'units': draw(st.sampled_from([None, 'm', 's', 'kg', 'cm']))})
             ivc = {'outs': outs, 'prom': draw(st.booleans())}
         # ---- components
@@ -565,6 +697,24 @@ def spec_strategy(max_recorders=4, drivers=('plain', 'doe', 'slsqp'), want_input
                 avail.append(({'t': 'ivc', 'i': i}, d['units'], d['size']))
         n_auto_dv = [0]
 
+        def draw_si(n, odds=2):
+            """None, or distinct source indices: a partial and/or reordered view of a source of size n"""
+            if n < 2 or draw(st.integers(0, odds)) == 0:
+                return None
+            perm = list(draw(st.permutations(list(range(n)))))
+            return perm[:draw(st.integers(1, n))]
+
+        def connected(name, src, su, n, **extra):
+            cands = [b for a, b in UNIT_PAIRS if a == su]
+            u = draw(st.sampled_from(cands)) if cands else su
+            si = draw_si(n, 1)
+            v = {'n': name, 'size': len(si) if si else n, 'units': u, 'val': None, 'src': src}
+            v['val'] = vals(v['size'])
+            v.update(extra)
+            if si:
+                v['si'] = si
+            return v
+
         def draw_input(name, allow_dv=True):
             kind = draw(st.integers(0, 3)) if avail else 0
             if kind == 0 or not avail:
@@ -577,9 +727,7 @@ def spec_strategy(max_recorders=4, drivers=('plain', 'doe', 'slsqp'), want_input
                     n_auto_dv[0] += 1
                 return {'n': name, 'size': n, 'units': u, 'val': vals(n), 'src': {'t': 'auto'}, 'dv': dv}
             src, su, n = draw(st.sampled_from(avail))
-            cands = [b for a, b in UNIT_PAIRS if a == su]
-            u = draw(st.sampled_from(cands)) if cands else su
-            return {'n': name, 'size': n, 'units': u, 'val': vals(n), 'src': src, 'dv': False}
+            return connected(name, src, su, n, dv=False)
 
         for k in range(ncomp):
             nin = draw(st.integers(1, 2))
@@ -611,11 +759,62 @@ def spec_strategy(max_recorders=4, drivers=('plain', 'doe', 'slsqp'), want_input
         if cycle:
             must.append(({'t': 'cyc', 'o': 'cy2'}, None, 1))
         for i, (src, su, n) in enumerate(must):
-            cands = [b for a, b in UNIT_PAIRS if a == su]
-            oins.append({'n': f"o{i}", 'size': n, 'units': draw(st.sampled_from(cands)) if cands else su, 'val': vals(n), 'src': src,
-                         't': draw(st.integers(-4, 4)), 's': draw(st.sampled_from([1, 2, 4]))})
+            oins.append(connected(f"o{i}", src, su, n, t=draw(st.integers(-4, 4)), s=draw(st.sampled_from([1, 2, 4]))))
         obj = {'ins': oins}
+        # ---- inputs connected to a promoted IndepVarComp output by promotion (rename) instead of connect()
+        if ivc and ivc['prom']:
+            for c in comps:
+                taken = set()
+                for v in c['ins']:
+                    if v['src']['t'] == 'ivc' and (not c['grp'] or gprom) and draw(st.integers(0, 3)) > 0:
+                        nm = ivc['outs'][v['src']['i']]['n']
+                        if nm not in taken:
+                            taken.add(nm)
+                            v['alias'] = nm
+                            v['implicit'] = True
+        # ---- groups of unconnected inputs promoted to one name, source described by set_input_defaults
+        shared = []
+        for g in range(2):
+            if draw(st.integers(0, 4 + g)) > 1 - g:
+                continue
+            slots = [(k, j) for k, c in enumerate(comps) for j, v in enumerate(c['ins']) if not v.get('alias')]
+            if not gprom:
+                lvl = draw(st.sampled_from(sorted({comps[k]['grp'] for k, _ in slots}))) if slots else ''
+                slots = [(k, j) for k, j in slots if comps[k]['grp'] == lvl]
+            if not slots:
+                continue
+            # unconnected inputs first; other inputs are cut off from their source to become members
+            order = list(draw(st.permutations(slots)))
+            order.sort(key=lambda kj: comps[kj[0]]['ins'][kj[1]]['src']['t'] != 'auto')
+            nmem = draw(st.sampled_from([1, 2, 2, 2, 3]))
+            mem, used = [], set()
+            for k, j in order:
+                if k not in used and len(mem) < nmem:
+                    used.add(k)
+                    mem.append((k, j))
+            fam = draw(st.sampled_from(UNIT_FAMILIES + UNIT_FAMILIES + [[None]]))
+            n = draw(st.sampled_from([1, 2, 3, 3, 4]))
+            name = f"s{g}"
+            munits = [draw(st.sampled_from(fam)) for _ in mem]
+            others = [u for u in fam if u != munits[0]]
+            # the units of the defaults: mostly different from the units of the first member
+            du = draw(st.sampled_from(others)) if others and draw(st.integers(0, 3)) > 0 else draw(st.sampled_from(fam))
+            dv = False
+            for (k, j), u in zip(mem, munits):
+                old = comps[k]['ins'][j]
+                dv = dv or bool(old.get('dv'))
+                si = draw_si(n)
+                v = {'n': old['n'], 'size': len(si) if si else n, 'units': u, 'val': None, 'src': {'t': 'auto'}, 'dv': False, 'alias': name}
+                v['val'] = vals(v['size'])
+                if si:
+                    v['si'] = si
+                comps[k]['ins'][j] = v
+            in_g = all(comps[k]['grp'] for k, _ in mem)
+            shared.append({'name': name, 'at': 'G' if in_g and draw(st.booleans()) else 'root', 'units': du, 'val': vals(n), 'size': n,
+                           'dv': dv or draw(st.booleans())})
         spec = {'ivc': ivc, 'comps': comps, 'gprom': gprom, 'cycle': cycle, 'obj': obj, 'cons': []}
+        if shared:
+            spec['shared'] = shared
         # ---- constraints: outputs of components that are not the objective
         cand = [comp_path(spec, k) + '.' + o['n'] for k, c in enumerate(comps) for o in c['outs']]
         if cycle:
@@ -660,6 +859,9 @@ def prom_in_system(spec, absn, P):
     comp, v = rel.split('.', 1)
     if P == 'G':
         c = [c for c in spec['comps'] if c['name'] == comp][0]
+        ali = [i.get('alias') for i in c['ins'] if i['n'] == v]
+        if ali and ali[0]:
+            return ali[0]
         return v if c['prom'] else rel
     if P == 'cyc':
         return v if spec['cycle']['prom'] else rel
